@@ -258,13 +258,7 @@ func (x *c19) allocateAndProbe(c *sim.RawClient, peer *sim.Peer, opts sim.AllocO
 	if r2 == nil || r2.Class != wire.ClassSuccess {
 		x.rec.Violate("retransmit-different", "not-success", "%s: retransmitted Allocate (same transaction id) answered %d, first answer was success", c.Name, codeOfMsg(r2))
 	} else {
-		for _, at := range []uint16{wire.AttrXORRelayedAddress, wire.AttrXORMappedAddress, wire.AttrLifetime} {
-			v1, _ := resp.Get(at)
-			v2, _ := r2.Get(at)
-			if !bytes.Equal(v1, v2) {
-				x.rec.Violate("retransmit-different", fmt.Sprintf("attr-%04x", at), "%s: retransmitted Allocate answered with a different attribute 0x%04x: %x vs %x", c.Name, at, v1, v2)
-			}
-		}
+		x.sameAttrs(c, resp, r2)
 		if !wire.CheckIntegrity(r2.Raw, c.LTKey()) {
 			x.rec.Violate("retransmit-different", "integrity", "%s: retransmitted Allocate success fails MESSAGE-INTEGRITY", c.Name)
 		}
@@ -281,6 +275,32 @@ func (x *c19) allocateAndProbe(c *sim.RawClient, peer *sim.Peer, opts sim.AllocO
 	x.m.CrossCheck()
 
 	return true
+}
+
+// sameAttrs: the answer to a retransmitted request carries the same attributes with the same values.
+func (x *c19) sameAttrs(c *sim.RawClient, first, again *wire.Msg) {
+	render := func(m *wire.Msg) []string {
+		var out []string
+		for _, a := range m.Attrs {
+			out = append(out, fmt.Sprintf("%04x=%x", a.Type, a.Value))
+		}
+
+		return out
+	}
+	a1, a2 := render(first), render(again)
+	if len(a1) != len(a2) {
+		x.rec.Violate("retransmit-different", "attr-count", "%s: retransmitted Allocate answered with %d attributes %v, the first answer had %d %v", c.Name, len(a2), a2, len(a1), a1)
+
+		return
+	}
+	for i := range a1 {
+		if a1[i] != a2[i] {
+			x.rec.Violate("retransmit-different", "attr-"+a1[i][:4], "%s: retransmitted Allocate answered with a different attribute: %s vs %s", c.Name, a2[i], a1[i])
+
+			return
+		}
+	}
+	_ = bytes.Equal
 }
 
 func optsApply(o sim.AllocOpts, b *wire.Builder) {
@@ -347,11 +367,29 @@ func (x *c19) evenPort(a, b *sim.RawClient) {
 		x.ensureNonce(c)
 	}
 	t := true
-	r := x.m.Allocate(a, sim.AllocOpts{EvenPort: &t})
+	tidA := x.w.NewTID()
+	ba := wire.NewBuilder(wire.MethodAllocate, wire.ClassRequest, tidA)
+	ba.Add(wire.AttrRequestedTransport, []byte{17, 0, 0, 0})
+	ba.Add(wire.AttrEvenPort, []byte{0x80})
+	a.AddAuth(ba)
+	rawA := ba.Bytes()
+	r := x.m.AllocateRaw(a, sim.AllocOpts{EvenPort: &t}, rawA, tidA)
 	if r == nil || r.Class != wire.ClassSuccess {
 		x.rec.FP("evenport/failed/%d", codeOfMsg(r))
 
 		return
+	}
+	if x.rng.Intn(2) == 0 {
+		// the same request again: the same success, token included
+		x.m.Retransmitted(a, tidA)
+		r2 := a.Exchange(rawA, tidA)
+		x.m.Audit(nil)
+		if r2 == nil || r2.Class != wire.ClassSuccess {
+			x.rec.Violate("retransmit-different", "evenport-not-success", "%s: retransmitted EVEN-PORT Allocate answered %d", a.Name, codeOfMsg(r2))
+		} else {
+			x.sameAttrs(a, r, r2)
+		}
+		x.rec.FP("evenport/retransmit/%d", codeOfMsg(r2))
 	}
 	relay, _ := sim.RelayAddrOf(r)
 	tok, ok := r.Get(wire.AttrReservationToken)
